@@ -1,7 +1,7 @@
 (* C02 - instantiation for every tabulated setting (Gen/SGTables.v is regenerated from /repo on every run). *)
 From Coq Require Import ZArith List Bool Lia Permutation.
-From DS Require Import Base.ZMat Base.SGDefs Model.GroupCheck Model.C02_Orbit Model.C02_Eps Gen.SGTables.
-From DS Require Import Proofs.C03All Proofs.C02_Action Proofs.C02_Expand Proofs.C02_OrbitStab Proofs.C02_EpsSound.
+From DS Require Import Base.ZMat Base.SGDefs Model.GroupCheck Model.C02_Orbit Model.C02_Eps Model.C02_Gen Gen.SGTables.
+From DS Require Import Proofs.C03All Proofs.C02_Action Proofs.C02_Expand Proofs.C02_OrbitStab Proofs.C02_EpsSound Proofs.C02_NearSpecial Proofs.C02_GenSound Proofs.C02_GenCheck.
 Import ListNotations.
 Open Scope Z_scope.
 
@@ -86,3 +86,82 @@ Example eps_merges_within_tolerance :
   let G := [(I3, v0); (M3 (-1) 0 0 0 (-1) 0 0 0 (-1), v0)] in
   snd (expand_eps 120000000 G v0 (V3 12 0 0)) = 1%nat /\ snd (expand_exact 120000000 G v0 (V3 12 0 0)) = 2%nat.
 Proof. vm_compute. split; reflexivity. Qed.
+
+(* ---- sites within tolerance of a special position ---- *)
+Lemma stab_head_ident D G off y : IsGroup G -> exists l, stab D G off y = ident :: l.
+Proof.
+  intros HG. pose proof (g_id_first G HG) as Hf. destruct G as [|o r]; cbn in Hf; [discriminate|]. inversion Hf; subst o.
+  unfold stab. cbn [filter]. unfold fixes at 1. rewrite img_ident, v3_eqb_refl. eexists. reflexivity.
+Qed.
+
+(* full statement for a site x within tolerance of x0, any group list *)
+Lemma near_special_spec D G off x x0 : IsGroup G -> 0 < D -> (12 | D) ->
+  within_tol D G off x x0 -> between_far D G off x x0 ->
+  let '(pos0, ops0, m0) := expand_exact D G off x0 in
+  expand_eps D G off x = (map (rep_of D off x) ops0, ops0, m0) /\
+  hd_error (map (rep_of D off x) ops0) = Some (red D x) /\
+  (forall l, In l ops0 -> exists g, In g l /\ rep_of D off x l = img D g off x) /\
+  attribution_ok D G off x0 pos0 ops0 /\ Permutation (concat ops0) G /\
+  (m0 * List.length (stab D G off x0))%nat = List.length G.
+Proof.
+  intros HG HD H12 Hw Hb.
+  pose proof (expand_eps_near_special D G off x x0 HD Hw Hb) as Hn.
+  pose proof (expand_exact_spec D G off x0 HG HD H12) as Hs.
+  destruct (expand_exact D G off x0) as [[pos0 ops0] m0].
+  destruct Hs as [_ [_ [Hhd [Hpos [Hattr [Hperm [_ Hos]]]]]]].
+  split; [exact Hn|]. split; [|split; [|split; [exact Hattr | split; [exact Hperm | exact Hos]]]].
+  - destruct Hattr as [Hops _]. destruct pos0 as [|p0 r]; cbn [hd_error] in Hhd; [discriminate|]. inversion Hhd; subst p0.
+    rewrite Hops. cbn [map hd_error]. change (fibre D G off x0 (red D x0)) with (stab D G off x0).
+    destruct (stab_head_ident D G off x0 HG) as [l ->]. unfold rep_of. cbn [hd]. rewrite img_ident. reflexivity.
+  - intros l Hl. destruct Hattr as [Hops _]. rewrite Hops in Hl. apply in_map_iff in Hl as [p [<- Hp]].
+    apply Hpos in Hp as [g [Hg Hpg]].
+    assert (Hin : In g (fibre D G off x0 p)) by (unfold fibre; apply filter_In; split; [exact Hg | unfold sends; apply v3_eqb_eq; symmetry; exact Hpg]).
+    destruct (fibre D G off x0 p) as [|g1 t]; [destruct Hin|]. exists g1. split; [left; reflexivity | reflexivity].
+Qed.
+
+Lemma near_special_spec_tabulated : forall s D off x x0, In s all_settings -> 0 < D -> (12 | D) ->
+  within_tol D (sg_ops s) off x x0 -> between_far D (sg_ops s) off x x0 ->
+  let G := sg_ops s in
+  let '(pos0, ops0, m0) := expand_exact D G off x0 in
+  expand_eps D G off x = (map (rep_of D off x) ops0, ops0, m0) /\
+  hd_error (map (rep_of D off x) ops0) = Some (red D x) /\
+  (forall l, In l ops0 -> exists g, In g l /\ rep_of D off x l = img D g off x) /\
+  attribution_ok D G off x0 pos0 ops0 /\ Permutation (concat ops0) G /\
+  (m0 * List.length (stab D G off x0))%nat = List.length G.
+Proof. intros s D off x x0 Hs HD H12 Hw Hb. apply near_special_spec; try assumption. apply all_groups; exact Hs. Qed.
+
+(* Non-vacuity of within_tol / between_far on a tabulated 48-operation setting: a site 3.5e-6 away from
+   (1/2,1/2,1/2), whose site symmetry has 48 operations (multiplicity 1). *)
+Example near_special_instance : exists s, In s all_settings /\ List.length (sg_ops s) = 48%nat /\
+  List.length (stab 10000000 (sg_ops s) v0 (V3 5000000 5000000 5000000)) = 48%nat /\
+  within_tol 10000000 (sg_ops s) v0 (V3 5000035 4999991 4999976) (V3 5000000 5000000 5000000) /\
+  between_far 10000000 (sg_ops s) v0 (V3 5000035 4999991 4999976) (V3 5000000 5000000 5000000).
+Proof.
+  assert (H : existsb (fun s => let G := sg_ops s in
+     if (List.length G =? 48)%nat then
+       if (List.length (stab 10000000 G v0 (V3 5000000 5000000 5000000)) =? 48)%nat then
+         near_special_b 10000000 G v0 (V3 5000035 4999991 4999976) (V3 5000000 5000000 5000000)
+       else false else false) all_settings = true)
+    by (vm_compute; reflexivity).
+  apply existsb_exists in H as [s [Hs Hb]]. exists s. split; [exact Hs|]. cbv zeta in Hb.
+  destruct (List.length (sg_ops s) =? 48)%nat eqn:E1; [|discriminate]. apply Nat.eqb_eq in E1.
+  destruct (List.length (stab 10000000 (sg_ops s) v0 (V3 5000000 5000000 5000000)) =? 48)%nat eqn:E2; [|discriminate]. apply Nat.eqb_eq in E2.
+  apply near_special_b_spec in Hb as [Hw Hbt]. repeat split; assumption.
+Qed.
+
+(* GeneratorSite on tabulated settings *)
+Lemma snap_identity_tabulated : forall s D off x, In s all_settings -> 0 < D -> (12 | D) -> separated D (sg_ops s) off x ->
+  generator_site D (sg_ops s) off x =
+  let '(pos, ops, m) := expand_exact D (sg_ops s) off x in Some (GSite D x off pos ops m (stab D (sg_ops s) off x)).
+Proof. intros s D off x Hs HD H12 Hsep. apply snap_identity_on_exact_sites; try assumption. apply all_groups; exact Hs. Qed.
+
+Lemma snap_fixes_tabulated : forall s D off x x0, In s all_settings -> 0 < D -> (12 | D) ->
+  snap_hyps_b D (sg_ops s) off x x0 = true ->
+  let G := sg_ops s in
+  let n := Z.of_nat (List.length (stab D G off x0)) in
+  let xs := snapped_site D G off x x0 in
+  generator_site D G off x =
+    (let '(pos, ops, m) := expand_exact (D * n) G (vscale n off) xs in
+     Some (GSite (D * n) xs (vscale n off) pos ops m (stab (D * n) G (vscale n off) xs)))
+  /\ incl (stab D G off x0) (stab (D * n) G (vscale n off) xs).
+Proof. intros s D off x x0 Hs HD H12 Hb. apply snap_fixes_site_checked; try assumption. apply all_groups; exact Hs. Qed.
